@@ -128,6 +128,8 @@ func firstLines(s string, n int) string {
 }
 
 type Discharger struct {
+	mu       sync.Mutex
+	cache    map[string]*Obligation // identical queries (same text) are decided once
 	dir      string
 	timeoutS int
 	seed     int
@@ -154,12 +156,64 @@ func (d *Discharger) discharge(i int, o *Obligation) {
 	if o.Pre {
 		return
 	}
+	// identical query text (e.g. the part of a function before a loop-level case split):
+	// decide once, copy the verdict
+	key := o.script(nil)
+	d.mu.Lock()
+	if d.cache == nil {
+		d.cache = map[string]*Obligation{}
+	}
+	prev := d.cache[key]
+	if prev == nil {
+		d.cache[key] = o
+	}
+	d.mu.Unlock()
+	if prev != nil {
+		for k := 0; k < 4000 && prev.Status == ""; k++ {
+			time.Sleep(50 * time.Millisecond)
+		}
+		if prev.Status != "" {
+			o.Status, o.Solver, o.Ms, o.Output, o.Model = prev.Status, prev.Solver+"(same query)", 0, prev.Output, prev.Model
+			return
+		}
+	}
 	var gv []string
 	if !o.Cover && o.Replay != nil {
 		gv = o.Replay.getValuesAt(o.Prefix)
 	}
 	file := filepath.Join(d.dir, fmt.Sprintf("q%05d.smt2", i))
 	os.WriteFile(file, []byte(o.script(gv)), 0o644)
+	// quantifier-free first: the hypotheses that are quantified are dropped (their relevant
+	// instances were added explicitly, see instantiateFor); proving the goal from fewer
+	// hypotheses is sound, and the ground query is decided by bit-blasting
+	if !o.Cover {
+		sc := o.script(gv)
+		if strings.Contains(sc, "(forall ") || strings.Contains(sc, "(exists ") {
+			var sb strings.Builder
+			for _, ln := range strings.Split(sc, "\n") {
+				if strings.HasPrefix(ln, "(assert") && !strings.HasPrefix(ln, "(assert (not ") && (strings.Contains(ln, "(forall ") || strings.Contains(ln, "(exists ")) {
+					continue
+				}
+				if strings.HasPrefix(ln, "(get-value") {
+					continue
+				}
+				sb.WriteString(ln)
+				sb.WriteByte('\n')
+			}
+			q := sb.String()
+			if !strings.Contains(q, "(forall ") && !strings.Contains(q, "(exists ") {
+				f2 := file + ".qf.smt2"
+				os.WriteFile(f2, []byte(strings.Replace(q, "(set-logic ALL)", "(set-logic QF_AUFBV)", 1)), 0o644)
+				r0 := race(f2, 25, d.seed, solvers[:1])
+				os.Remove(f2)
+				if r0.status == "unsat" {
+					o.Solver, o.Ms, o.Output, o.Status = r0.solver+"(ground)", r0.ms, r0.out, "discharged"
+					os.Remove(file)
+					return
+				}
+			}
+		}
+	}
 	// fast path: the newest z3 alone with a short budget
 	r := race(file, 3, d.seed, solvers[:1])
 	if r.status == "unknown" {
